@@ -17,6 +17,15 @@ use std::time::Instant;
 
 pub const VERIF_ROOT: &str = "/verif";
 
+/// where evidence and replay files go: /verif, or $VERIF_OUT for side runs (multi-seed silence runs,
+/// background campaigns) that must not overwrite the registered evidence
+pub fn out_root() -> PathBuf {
+    match std::env::var("VERIF_OUT") {
+        Ok(d) if !d.is_empty() => PathBuf::from(d),
+        _ => PathBuf::from(VERIF_ROOT),
+    }
+}
+
 #[derive(Clone, Copy, PartialEq, Eq, Debug)]
 pub enum Tier {
     Quick,
@@ -372,7 +381,7 @@ pub struct RunResult {
 }
 
 pub fn write_replay<C: Serialize>(id: &str, case: &C, reason: &str, ctx: &Ctx) -> PathBuf {
-    let dir = Path::new(VERIF_ROOT).join("replays");
+    let dir = out_root().join("replays");
     let _ = std::fs::create_dir_all(&dir);
     let h = case_hash(case);
     let path = dir.join(format!("{id}-{h:016x}.json"));
@@ -407,7 +416,7 @@ pub fn write_evidence(
     extra: Value,
     status: &str,
 ) {
-    let dir = Path::new(VERIF_ROOT).join("evidence");
+    let dir = out_root().join("evidence");
     let _ = std::fs::create_dir_all(&dir);
     let mut coverage = json!({
         "evaluations": stats.evaluations.max(stats.cases),
@@ -583,7 +592,7 @@ pub fn run_property<P: Property>(p: &P, ctx: &Ctx) -> i32 {
     if let Some((msg, case)) = p.fixed_part(ctx, &mut total) {
         let path = match case {
             Some(c) => write_replay(id, &c, &msg, ctx),
-            None => PathBuf::from("/verif/replays/none"),
+            None => out_root().join("replays").join("none"),
         };
         println!("VIOLATION property={id} replay={}", path.display());
         println!("  reason: {}", truncate(&msg, 2000));
